@@ -23,6 +23,32 @@ def OutRel {ε α σ₁ σ₂ : Type} (R : σ₁ → σ₂ → Prop) :
   | .panic, .panic => True
   | _, _ => False
 
+/-- Relating two outcomes through `OutRel`, by cases. -/
+theorem OutRel.elim' {ε α σ₁ σ₂ : Type} {R : σ₁ → σ₂ → Prop}
+    {o₁ : Outcome ε (α × σ₁)} {o₂ : Outcome ε (α × σ₂)} (h : OutRel R o₁ o₂) :
+    (∃ a t₁ t₂, o₁ = .ok (a, t₁) ∧ o₂ = .ok (a, t₂) ∧ R t₁ t₂) ∨
+    (∃ e, o₁ = .err e ∧ o₂ = .err e) ∨ (o₁ = .panic ∧ o₂ = .panic) := by
+  cases o₁ with
+  | ok p =>
+    cases o₂ with
+    | ok q =>
+      obtain ⟨a, t₁⟩ := p; obtain ⟨b, t₂⟩ := q
+      simp only [OutRel] at h
+      obtain ⟨rfl, ht⟩ := h
+      exact .inl ⟨a, t₁, t₂, rfl, rfl, ht⟩
+    | err e => simp [OutRel] at h
+    | panic => simp [OutRel] at h
+  | err e =>
+    cases o₂ with
+    | ok q => simp [OutRel] at h
+    | err e' => simp only [OutRel] at h; subst h; exact .inr (.inl ⟨e, rfl, rfl⟩)
+    | panic => simp [OutRel] at h
+  | panic =>
+    cases o₂ with
+    | ok q => simp [OutRel] at h
+    | err e' => simp [OutRel] at h
+    | panic => exact .inr (.inr ⟨rfl, rfl⟩)
+
 theorem parseHeaders_sim {σ₁ σ₂ : Type} {S₁ : Source σ₁} {S₂ : Source σ₂} {R : σ₁ → σ₂ → Prop}
     (sim : Sim S₁ S₂ R) (fuel : Nat) (s₁ : σ₁) (s₂ : σ₂) (acc : Headers) (h : R s₁ s₂) :
     OutRel R (parseHeaders S₁ fuel s₁ acc) (parseHeaders S₂ fuel s₂ acc) := by
